@@ -113,19 +113,16 @@ int ss_overwrite_good(SIZED_STRING* s, const char* v, unsigned n)
   return 1;
 }
 
-/* R20.7: a value recognised by its decimal digits converted with base 0 */
-int is_integer(const char* s);
+/* R20.7: the text of an integer external converted with base 0 */
 long long strtoll(const char* s, char** e, int base);
 int atoi(const char* s);
-long long cli_int_bad(const char* value)
+int define_int(void* rules, const char* id, long long v);
+int cli_int_bad(void* rules, const char* id, const char* value)
 {
-  if (is_integer(value))
-    return strtoll(value, NULL, 0);      /* 0100 -> 64 */
-  return 0;
+  return define_int(rules, id, strtoll(value, NULL, 0));      /* 0100 -> 64 */
 }
-long long cli_int_good(const char* value)
+int cli_int_good(void* rules, const char* id, const char* value)
 {
-  if (is_integer(value))
-    return atoi(value);
-  return 0;
+  int v = atoi(value);
+  return define_int(rules, id, v);
 }
